@@ -27,7 +27,7 @@ theorem model_cells_exist : Known.runtimeMutable.all (fun c => Gen.GlobalState.c
 theorem runtime_mutable_names :
     Known.runtimeMutable.map (fun c => c.2.1)
       = ["RowHistoryCV", "UniqueNumericIdGenerator.context_uniqifier", "StandardFuncs.Functions._faker_for_dates",
-         "parse_date", "parse_datetimespec", "mask_for_key", "randomizer"] := by rfl
+         "_parse_date_str", "_parse_datetime_str", "mask_for_key", "randomizer"] := by rfl
 
 /-! #### who writes them -/
 
@@ -75,6 +75,26 @@ theorem maxsize_mask_for_key : maxsize .maskForKey = some Gen.GlobalState.maxsiz
 theorem cache_keys :
     Gen.GlobalState.parseDateParams = ["d"] ∧ Gen.GlobalState.parseDatetimespecParams = ["d"]
     ∧ Gen.GlobalState.randomizerParams = ["key"] ∧ Gen.GlobalState.maskForKeyParams = ["key", "numbits"] := by decide
+
+/-- commit 885750c: the caches sit on the string-only helpers; `parse_date` / `parse_datetimespec` themselves
+    answer datetimes, dates, `now` and `today` directly — the value of the `onlyStrings` parameter of
+    `parseDateCall` / `parseDatetimespecCall` under which `runs_independent_full` is stated -/
+theorem caches_only_strings : Gen.GlobalState.cachesOnlyStrings = true := by decide
+
+/-- the dispatch of the two wrappers is the one `parseDateCall` / `parseDatetimespecCall` were written from -/
+theorem parse_date_dispatch :
+    Gen.GlobalState.parseDateBody =
+      ["if isinstance(d, datetime):\n    return d.date()\nelif isinstance(d, date):\n    return d",
+       "return _parse_date_str(d)"]
+    ∧ Gen.GlobalState.parseDateStrBody = ["return dateutil.parser.parse(d).date()"] := by
+  constructor <;> rfl
+
+theorem parse_datetimespec_dispatch :
+    Gen.GlobalState.parseDatetimespecBody =
+      ["if isinstance(d, datetime):\n    if not d.tzinfo:\n        d = d.replace(tzinfo=timezone.utc)\n    return d\nelif isinstance(d, str):\n    if d == 'now':\n        return datetime.now(tz=timezone.utc)\n    elif d == 'today':\n        return datetime.combine(date.today(), datetime.min.time(), tzinfo=timezone.utc)\n    return _parse_datetime_str(d)\nelif isinstance(d, date):\n    return datetime.combine(d, datetime.min.time(), tzinfo=timezone.utc)"]
+    ∧ Gen.GlobalState.parseDatetimeStrBody =
+      ["dt = dateutil.parser.parse(d)", "if not dt.tzinfo:\n    dt = dt.replace(tzinfo=timezone.utc)", "return dt"] := by
+  constructor <;> rfl
 
 /-- `mask_for_key` works on a copy: the cached `Random(key)` is never advanced, so `randomizer` and
     `mask_for_key` are pure functions of their keys -/
